@@ -4,13 +4,17 @@
     any order-preserving renumbering of the asset ids commutes with every queue operation ([C14_renumber_*]); the marker event of
     Environment.run is transparent ([C14_run_marker_*]); and, from these, **running for a and then for b ends in the same world,
     clock, recorded data and pending/paused events as running once for a+b, when the second run hands the remaining events the
-    weights the single run gives them** ([C14_run_split]).  The floor model is a pure function of scenario and weights, and the
+    weights the single run gives them** ([C14_run_split]); the theorem applies to the whole floor system ([C14_floor_run_split]):
+    every environment call of a floor action is well-formed ([C14_floor_calls_well_formed]: scheduled above the marker's priority,
+    pause/unpause/cancel only for existing devices).  The floor model is a pure function of scenario and weights, and the
     lock-step shows the implementation computes that function at whatever value the process-wide id counter has.
     PARTIAL only for the clause about worker processes (a Coq model cannot exhibit them): decided by the reproducibility monitor
     on the implementation (rerun / seeded twice / split / multi-process). *)
 From Coq Require Import ZArith List Bool Lia.
 From Coq Require Import Sorting.Sorted.
-From SimVerif Require Import Model.Base Model.Env Proofs.EnvInv Proofs.EnvRepro Proofs.EnvSplit.
+From RecordUpdate Require Import RecordUpdate.
+From SimVerif Require Import Model.Base Model.Env Model.FamEnv Model.RM Model.Maint Model.FloorTypes Model.Floor Model.FamFloor.
+From SimVerif Require Import Proofs.EnvInv Proofs.EnvRepro Proofs.EnvSplit Proofs.FloorCmd Proofs.FloorSplit.
 Import ListNotations.
 Open Scope Z_scope.
 
@@ -132,4 +136,53 @@ Proof.
     + intros e [<-|[]]. split; [cbn; unfold P_TERMINATE; lia|discriminate].
     + intros e [].
   - eexists. split; [vm_compute; reflexivity|reflexivity].
+Qed.
+
+(** * the floor system *)
+(** every environment call a floor action makes: scheduled above the end-of-run marker's priority; pause / unpause / cancel only
+    of an existing device *)
+Theorem C14_floor_calls_well_formed : forall nw fuel uops a w,
+  f_out w = [] ->
+  Forall (fun c => match c with
+                   | FSched _ p _ _ => P_TERMINATE < p
+                   | FPause d | FUnpause d | FCancel d => amem d (f_devs (exec_fact fuel uops a w nw)) = true
+                   | _ => True end) (f_out (exec_fact fuel uops a w nw)).
+Proof. exact exec_fact_cmds_ok. Qed.
+
+(** a run of the floor system can be split: [wgood w] = no pending output and no device numbered -1 (decidable; true of every
+    state the driver reaches from a decoded scenario whose ids are positive) *)
+Theorem C14_floor_run_split : forall sc ws ws2 fuel a b w (en : env fact) w2 en2,
+  wgood w = true -> 0 <= a -> 0 <= b -> clean fact en ->
+  run ws (exec_fl sc) fl_wfail fuel (a + b) (w, en) = Some (Ok (w2, en2)) ->
+  exists w1 en1,
+    run ws (exec_fl sc) fl_wfail (S fuel) a (w, en) = Some (Ok (w1, en1)) /\ now en1 = now en + a /\
+    ((forall i, ws2 (S (next_eid en1) + i)%nat = ws (next_eid en1 + i)%nat) ->
+     exists en2', run ws2 (exec_fl sc) fl_wfail (S fuel) b (w1, en1) = Some (Ok (w2, en2')) /\
+                  eqv fact (queue en2) (queue en2') /\ eqv fact (paused en2) (paused en2') /\ datalog en2' = datalog en2 /\
+                  now en2' = now en2 /\ now en2 = now en + (a + b) /\ terminated en2' = true /\ terminated en2 = true).
+Proof. exact floor_run_split. Qed.
+
+Print Assumptions C14_floor_calls_well_formed.
+Print Assumptions C14_floor_run_split.
+
+(** Non-vacuity: source (cycle 8) -> processor (cycle 24) -> sink, initialised: the world is good, the environment clean, and a
+    run for 16 + 24 succeeds (4 parts supplied). *)
+Definition c14_world : fw :=
+  mkFw [(1, (blank_dev KSource) <| d_down := [2] |> <| d_cycle := 8 |>);
+        (2, (blank_dev KProcessor) <| d_up := [1] |> <| d_down := [3] |> <| d_cycle := 24 |>);
+        (3, (blank_dev KSink) <| d_up := [2] |>)] [] init_rs [] 10 [] [] 0.
+Definition c14_sc : fl_scn := mkFlScn 1 1 c14_world [] [].
+Definition c14_s0 := fst (do_fxop c14_sc (c14_world, init_env) FXInit).
+Example C14_floor_split_nonvacuous :
+  wgood (fst c14_s0) = true /\ clean fact (snd c14_s0) /\
+  exists s, run (wgen 1 1) (exec_fl c14_sc) fl_wfail 200 (16 + 24) c14_s0 = Some (Ok s) /\ d_produced (getd (fst s) 1) = 2.
+Proof.
+  split; [vm_compute; reflexivity|]. split.
+  - assert (Q : queue (snd c14_s0) = [mkEvent 0%nat 8 P_FINISH_PROCESSING (wgen 1 1 0) 1 (Some (AFinishCycle 1)) None false]) by (vm_compute; reflexivity).
+    assert (P : paused (snd c14_s0) = []) by (vm_compute; reflexivity).
+    split; rewrite ?Q, ?P.
+    + repeat constructor.
+    + intros e [<-|[]]. split; [cbn; unfold P_TERMINATE, P_FINISH_PROCESSING; lia|discriminate].
+    + intros e [].
+  - eexists. split; [vm_compute; reflexivity|vm_compute; reflexivity].
 Qed.
